@@ -901,6 +901,9 @@ class Graph:
             # the continuation is user code: it tells `1` from `True` and `0` from `False` (type-strict table)
             for k, i in table:
                 if type(k) is type(v) and _eq(k, v):
+                    if i in (b.get("raw") or []):
+                        # a continuation that (wrongly) returns a PLAIN value on this branch instead of an evaluatable
+                        return dec(self.nodes[i]["v"])
                     return self.node(i)
             if b.get("dflt") is not None:
                 return self.node(b["dflt"])
@@ -1255,7 +1258,12 @@ def run_eval_op(g, op):
                 # (calling a dataset class is its constructor — no request is issued for the class itself — so those
                 # are always evaluated through `evaluate`)
                 rv = obj(o) if (_EVAL_COUNT[0] % 3 == 0 and not isinstance(obj, type)) else obj.evaluate(o)
-                if op.get("mutate_result") == "lazy":
+                if op.get("take") is not None:
+                    # a consumer that asks a lazily produced sequence for its first `take` elements only (a search loop
+                    # that breaks early; a result that is never iterated)
+                    it = iter(rv)
+                    r = ["ok", [enc(next(it)) for _ in range(op["take"])]]
+                elif op.get("mutate_result") == "lazy":
                     # a consumer of a lazily produced sequence that edits each element as soon as it gets it
                     seen = []
                     for el in rv:
